@@ -25,6 +25,9 @@ type C11Case struct {
 	// FIFO schedule, where every request meets its predecessor finished: the shapes in which a successor has to
 	// WAIT for a SERIALIZABLE predecessor are the listed C09 findings F-serializable-*.
 	Serializable bool `json:"serializable,omitempty"`
+	// Restart: after the history the faulted device restarts empty and is re-synchronised: what it holds then must
+	// still be the fold of the changes that were NOT refused (a refusal must not come back through the applied values)
+	Restart bool `json:"restart,omitempty"`
 }
 
 func genC11(rt *rapid.T) C11Case {
@@ -32,6 +35,7 @@ func genC11(rt *rapid.T) C11Case {
 		Multi: rapid.IntRange(0, 2).Draw(rt, "multi") == 0, Preempt: rapid.IntRange(0, 3).Draw(rt, "preempt") == 0}
 	c.Pos = rapid.IntRange(0, c.NTx-1).Draw(rt, "pos")
 	c.Serializable = !c.Preempt && rapid.IntRange(0, 2).Draw(rt, "serializable") == 0
+	c.Restart = rapid.IntRange(0, 1).Draw(rt, "restart") == 1
 	return c
 }
 
@@ -102,6 +106,9 @@ func c11Scenario(c C11Case, code codes.Code) (Scenario, string) {
 			sc.Actions = append(sc.Actions, Action{Kind: "linkdown", Target: "t1"}, Action{Kind: "linkup", Target: "t1"})
 		}
 	}
+	if c.Restart {
+		sc.Actions = append(sc.Actions, Action{Kind: "restart", Target: "t1", Idle: true})
+	}
 	return sc, kind
 }
 
@@ -112,6 +119,9 @@ func runC11(c C11Case, x *vstat.Ctx) error {
 	x.Sample(map[string]any{"case": c, "codes": "all of 1..16, one world each"})
 	if c.Serializable {
 		x.Class("refused-request:SERIALIZABLE")
+	}
+	if c.Restart {
+		x.Class("device restarts empty after the history and is re-synchronised")
 	}
 	for code := codes.Code(1); code <= 16; code++ {
 		sc, kind := c11Scenario(c, code)
